@@ -13,7 +13,9 @@ pub mod c10;
 pub mod c11;
 pub mod c12;
 pub mod c13;
+pub mod c14;
 pub mod c15;
+pub mod c16;
 pub mod c17;
 pub mod fmt;
 pub mod nav;
@@ -43,7 +45,9 @@ pub fn dispatch(ctx: &Ctx, replay_file: Option<&str>) -> i32 {
         "C11" => prop!(c11),
         "C12" => prop!(c12),
         "C13" => prop!(c13),
+        "C14" => prop!(c14),
         "C15" => prop!(c15),
+        "C16" => prop!(c16),
         "C17" => prop!(c17),
         other => {
             eprintln!("no check for property {}", other);
